@@ -33,6 +33,8 @@ TRUSTED = [
 ASSUMPTIONS = [
     "kwargs values in Initializer.__call__ histories are ints / None (the state machine does not inspect them except 'is None')",
     "floats are passed to Coq as exact rationals; the model computes in Q, the library in float64 (tolerance 1e-9)",
+    "sr requests on an exactly nilpotent draw whose library radius estimate is solver noise (> 1e-12, not reproducible between two "
+    "calls on this scipy) are skipped in the correspondence; the oracle decides them (open finding sr:null-radius-misestimated-blown-up)",
     "requests that make scipy's eigs itself raise on this scipy (sparse n<=2: 'Cannot use scipy.linalg.eig for sparse A'; "
     "W@ones == 0: 'ARPACK error -9: Starting vector is zero') are counted as environment skips, not as violations",
     "per-column input_scaling factors are float64 arrays whatever the draw's dtype: the result must keep the requested dtype",
@@ -298,6 +300,11 @@ def run_numeric(c):
         with warnings.catch_warnings():
             warnings.simplefilter("ignore")
             rho = float(spectral_radius(w0))
+        D0 = dense(w0).astype(float)
+        if rho > 1e-12 and rho < 0.5 * np.abs(D0).max() * D0.shape[0] and exactly_nilpotent(D0):
+            # the draw is nilpotent and the library's radius is solver noise, different at every call (scipy's ARPACK
+            # restarts from random vectors): the value it will divide by can not be observed -> open finding, see oracle
+            raise RuntimeError("Starting vector is zero / null-radius estimate is not reproducible (skip)")
         w = call_init(c["init"], c["shape"], c["kw"], c.get("seed"), sr=fl(c["sr"]))
         return {"W0": dense(w0).tolist(), "rho": rho, "W": dense(w).tolist()}
     if k == "is":
@@ -808,19 +815,15 @@ def _judge(c):
             big = np.abs(WD).max() if WD.size else 0.0
             ref = np.abs(D).max() if D.size else 0.0
             if big > 100 * ref and big > 0:
-                # which of the two mechanisms: the library's own estimate is below its epsilon (pre-fix floor) or ARPACK's
-                # estimate of the null radius is above it
-                try:
-                    from reservoirpy.observables import spectral_radius
-                    with warnings.catch_warnings():
-                        warnings.simplefilter("ignore")
-                        est = float(spectral_radius(base))
-                except Exception:
-                    est = None
-                key = "sr:null-radius-blown-up" if (est is not None and est < EPS) else "sr:null-radius-misestimated-blown-up"
-                return _viol(key, "the same-seed draw has a null spectral radius (numpy eig: %.3g, library estimate: %r) and the "
+                # which of the two mechanisms: the factor applied tells the radius the library divided by -- its epsilon
+                # floor (pre-fix code) or a noisy ARPACK/LAPACK estimate above epsilon (the estimate of a null radius is
+                # not even reproducible from one call to the next, so it is not re-measured here)
+                est = sr * ref / big if big else None
+                floored = est is not None and abs(est - EPS) <= 1e-6 * EPS
+                key = "sr:null-radius-blown-up" if floored else "sr:null-radius-misestimated-blown-up"
+                return _viol(key, "the same-seed draw has a null spectral radius (numpy eig: %.3g, radius the library divided by: %r) and the "
                              "sr=%r request multiplied it by %.3g" % (rho0, est, sr, big / ref if ref else float("inf")),
-                             c, "the draw, not rescaled", {"max|W|": big, "max|W0|": ref, "library_radius_estimate": est})
+                             c, "the draw, not rescaled", {"max|W|": big, "max|W0|": ref, "radius_divided_by": est})
             return None
         if rho0 < 1e-5:
             return {"skip": "ill-conditioned", "detail": rho0}
